@@ -35,6 +35,9 @@ func isMacroDefinition(node ast.Node) bool {
 	if !ok {
 		return false
 	}
+	if _, ok = exp.Left.(*ast.Identifier); !ok { // e.g. a comment or an index expression on the left.
+		return false
+	}
 	_, ok = exp.Right.(*ast.MacroLiteral)
 	return ok
 }
